@@ -73,9 +73,11 @@ def run_noescape(prog, rep, rule_name, restrict=None, floor=40):
         for t, chain in escapes:
             fc = first_callee(nt, f, chain)
             groups.setdefault(fc, []).append((t, chain))
+        # one finding per sink: which of its callees the representative path goes through depends on the order of exploration and on
+        # helper extraction, so it is part of the message, not of the finding's identity
+        groups = {' / '.join(sorted(strip_targs(k) for k in groups)): [x for lst_ in groups.values() for x in lst_]}
         for fc, lst in sorted(groups.items()):
-            # the statically named callee at the call site inside the sink (virtual calls: the interface method)
-            key = '%s|via %s' % (f.pq, strip_targs(fc))
+            key = '%s' % (f.pq,)
             types = sorted(set(t.type for t, _ in lst))
             uncl = any(t.kind == 'unclassified' for t, _ in lst)
             msg = '%s is nothrow by type but %s can propagate out of it through %s%s' % (
